@@ -182,6 +182,37 @@ pub struct SeqCase {
 /// buffers are ordinary heap memory): every result must be what the
 /// reference search gives for that buffer alone, whatever was searched before.
 pub fn eval_seq(c: &SeqCase, obs: &mut Obs) -> Result<(), String> {
+    // in one forked child: the searches follow each other in one process, and a
+    // fault is a verdict about the library
+    let r = mb2_sandbox::run_child(|| {
+        let mut o = Obs::new();
+        match eval_seq_inner(c, &mut o) {
+            Ok(f) => format!("OK {f}").into_bytes(),
+            Err(m) => format!("E {m}").into_bytes(),
+        }
+    });
+    let founds: usize = match r {
+        mb2_sandbox::ChildResult::Done(b) if b.starts_with(b"OK ") => String::from_utf8_lossy(&b[3..]).parse().unwrap_or(0),
+        mb2_sandbox::ChildResult::Done(b) => return Err(String::from_utf8_lossy(&b[2.min(b.len())..]).into_owned()),
+        mb2_sandbox::ChildResult::Signal(sig) => return Err(format!("{} searches in one process crashed it ({})", c.searches.len(), mb2_sandbox::ChildResult::signal_name(sig))),
+        mb2_sandbox::ChildResult::Timeout => {
+            obs.inconclusive("watchdog expired");
+            return Ok(());
+        }
+        mb2_sandbox::ChildResult::Broken(code) => {
+            obs.inconclusive(format!("child exited with {code} without a record"));
+            return Ok(());
+        }
+    };
+    obs.class(format!("found-{}", founds.min(3)));
+    if founds >= 1 && c.searches.len() >= 2 {
+        obs.nontrivial(fnv(format!("{:?}", c.searches).as_bytes()));
+        obs.sample(json!({"searches": c.searches.len(), "successful": founds}));
+    }
+    Ok(())
+}
+
+fn eval_seq_inner(c: &SeqCase, _obs: &mut Obs) -> Result<usize, String> {
     let mut founds = 0;
     for (i, s) in c.searches.iter().enumerate() {
         if s.len > 1 << 16 {
@@ -204,12 +235,7 @@ pub fn eval_seq(c: &SeqCase, obs: &mut Obs) -> Result<(), String> {
             return Err(format!("search {} of {} in one process: buffer of {} bytes, plants {:?}: expected {want:?}, got {}", i + 1, c.searches.len(), s.len, s.plants, t.render().replace('\n', " ")));
         }
     }
-    obs.class(format!("found-{}", founds.min(3)));
-    if founds >= 1 && c.searches.len() >= 2 {
-        obs.nontrivial(fnv(format!("{:?}", c.searches).as_bytes()));
-        obs.sample(json!({"searches": c.searches.len(), "successful": founds}));
-    }
-    Ok(())
+    Ok(founds)
 }
 
 fn strategy_seq(ctx: &Ctx) -> BoxedStrategy<SeqCase> {
